@@ -18,13 +18,21 @@ pub enum Tag {
     Tuple,
     /// `Option<LTerm>::Some`
     Some,
+    /// `#[compound] struct Holder { item: Option<LTerm>, tag: LTerm }`: the first field is an
+    /// `OptSome(x)` or an `OptNone`
+    Holder,
+    /// the `Some(x)` / `None` of an `Option<LTerm>` FIELD of a compound struct (a nested object
+    /// with one child or none; both have the same Rust type)
+    OptSome,
+    OptNone,
 }
 
 impl Tag {
     pub fn arity(self) -> usize {
         match self {
-            Tag::Pair | Tag::Pair2 | Tag::Named | Tag::Rec | Tag::Tuple => 2,
-            Tag::Box1 | Tag::Some => 1,
+            Tag::Pair | Tag::Pair2 | Tag::Named | Tag::Rec | Tag::Tuple | Tag::Holder => 2,
+            Tag::Box1 | Tag::Some | Tag::OptSome => 1,
+            Tag::OptNone => 0,
         }
     }
     pub fn name(self) -> &'static str {
@@ -36,9 +44,12 @@ impl Tag {
             Tag::Rec => "Rec",
             Tag::Tuple => "Tuple",
             Tag::Some => "Some",
+            Tag::Holder => "Holder",
+            Tag::OptSome => "OptSome",
+            Tag::OptNone => "OptNone",
         }
     }
-    pub const ALL: [Tag; 7] = [
+    pub const ALL: [Tag; 10] = [
         Tag::Pair,
         Tag::Pair2,
         Tag::Box1,
@@ -46,6 +57,9 @@ impl Tag {
         Tag::Rec,
         Tag::Tuple,
         Tag::Some,
+        Tag::Holder,
+        Tag::OptSome,
+        Tag::OptNone,
     ];
 }
 
